@@ -296,8 +296,11 @@ class CacheSet(object):
         try:
             return self.caches[cls.__name__].get(id)
         except KeyError:
-            self.caches[cls.__name__] = CacheFactory(*self.args, **self.kw)
-            return self.caches[cls.__name__].get(id)
+            # setdefault is atomic: two threads that both miss here
+            # must end up sharing one CacheFactory
+            cache = self.caches.setdefault(
+                cls.__name__, CacheFactory(*self.args, **self.kw))
+            return cache.get(id)
 
     def put(self, id, cls, obj):
         self.caches[cls.__name__].put(id, obj)
@@ -309,8 +312,9 @@ class CacheSet(object):
         try:
             self.caches[cls.__name__].created(id, obj)
         except KeyError:
-            self.caches[cls.__name__] = CacheFactory(*self.args, **self.kw)
-            self.caches[cls.__name__].created(id, obj)
+            cache = self.caches.setdefault(
+                cls.__name__, CacheFactory(*self.args, **self.kw))
+            cache.created(id, obj)
 
     def expire(self, id, cls):
         try:
